@@ -105,8 +105,8 @@ def build_runner():
     runner = os.path.join(VERIF, 'runner', 'runner')
     if os.path.exists(runner) and os.path.exists(stamp) and open(stamp).read() == src_hash:
         return runner
-    build_coq('Model/Emplace.vo Model/Ops.vo Model/Io.vo Model/Portable.vo'
-              if os.path.exists(os.path.join(coq, 'Model', 'Ops.v')) else 'Model/Emplace.vo')
+    proj = open(os.path.join(coq, '_CoqProject')).read().split()
+    build_coq(' '.join(f[:-2] + '.vo' for f in proj if f.startswith('Model/') and f.endswith('.v')))
     rc, out = sh('timeout 600 coqc -Q .. Flatty ../Extract.v', cwd=ex)
     if rc != 0:
         raise BuildError('extraction', out)
